@@ -48,13 +48,22 @@ WORM_GEAR_AND_WHEEL_AVAILABLE_PRESSURE_ANGLES = [
 ]
 
 
+def _worm_gear_and_wheel_data_row(pressure_angle: Angle) -> pd.Series:
+    for index, available_pressure_angle in zip(
+        WORM_GEAR_AND_WHEEL_DATA.index,
+        WORM_GEAR_AND_WHEEL_AVAILABLE_PRESSURE_ANGLES
+    ):
+        if pressure_angle == available_pressure_angle:
+            return WORM_GEAR_AND_WHEEL_DATA.loc[index]
+    raise KeyError(pressure_angle)
+
+
 def worm_gear_and_wheel_maximum_helix_angle_function(
         pressure_angle: Angle
 ) -> Angle:
     return Angle(
         value=float(
-            WORM_GEAR_AND_WHEEL_DATA.set_index('Pressure Angle').loc[
-                pressure_angle.to('deg').value,
+            _worm_gear_and_wheel_data_row(pressure_angle)[
                 'Maximum Helix Angle'
             ]
         ),
@@ -63,10 +72,7 @@ def worm_gear_and_wheel_maximum_helix_angle_function(
 
 
 def worm_wheel_lewis_factor_function(pressure_angle: Angle) -> Angle:
-    return WORM_GEAR_AND_WHEEL_DATA.set_index('Pressure Angle').loc[
-        pressure_angle.to('deg').value,
-        'Lewis Factor'
-    ]
+    return _worm_gear_and_wheel_data_row(pressure_angle)['Lewis Factor']
 
 
 class MechanicalObject(ABC):
